@@ -275,7 +275,12 @@ func execReq(p *reqPair, c reqCase) (obs string, envSeen bool, hist []string) {
 		}
 		forged := gen.PID{Node: peer(c.Forge), ID: 1001, Creation: p.a.Creation()}
 		var pid gen.PID
-		pid, err = p.a.(routeSpawner).RouteSpawn(p.b.Name(), nameAtom(c.Name), gen.ProcessOptionsExtra{ParentPID: forged, ParentLeader: forged, ParentLogLevel: gen.LogLevelInfo}, p.a.Name())
+		fopts := gen.ProcessOptionsExtra{ParentPID: forged, ParentLeader: forged, ParentLogLevel: gen.LogLevelInfo}
+		if c.Expose {
+			// like an honest requester: the environment travels under the spawn switch only
+			fopts.ParentEnv = p.a.EnvList()
+		}
+		pid, err = p.a.(routeSpawner).RouteSpawn(p.b.Name(), nameAtom(c.Name), fopts, p.a.Name())
 		pids = append(pids, pid)
 	} else if c.Kind == "spawn" {
 		var pid gen.PID
